@@ -213,7 +213,7 @@ func VerifC19Update() {
 		m.set(c, v+1)
 		vCheckBSI(b, m, "post")
 		// the caller's found-set stays the caller's: changing it later must not change the index
-		fs.Add(uint64(vsym.Param("cb"))+3)
+		fs.Add(uint64(vsym.Param("cb")) + 3)
 		fs.Remove(c)
 	case 9: // ParOr on disjoint columns
 		o, mo := vGenBSIAt(1, w, 2)
